@@ -1,11 +1,16 @@
 """Sidecar contracts for tefra/xsdata, keyed by module:QualName (see DESIGN.md §2.1)."""
 
-MODULES = ["c06_dates", "c03_namespaces"]
+MODULES = ["c06_dates", "c03_namespaces", "c05_converters"]
 
 # helpers executed by inlining their real source instead of through a contract (listed in evidence)
 INLINE = ["calendar:isleap"]
 
 PROPERTIES = {
+    "C05": {
+        "min_obligations": 50,
+        "canaries": [],
+        "decided": [], "not_decided": [], "bounded": [], "trusted_base": [], "assumptions": [],
+    },
     "C03": {
         "min_obligations": 100,
         "canaries": [],
